@@ -487,15 +487,28 @@ HL = ['P', 'Q', 'G']
 _hb = {}
 
 
-def hi_build(schema):
-    key = json.dumps(schema, sort_keys=True)
+_tmp = []
+
+
+def scratch_dir():
+    if not _tmp:
+        import atexit
+        import shutil
+        import tempfile
+        _tmp.append(tempfile.mkdtemp(prefix='verif_c13_'))
+        atexit.register(shutil.rmtree, _tmp[0], True)
+    return _tmp[0]
+
+
+def hi_build(schema, on_file=False):
+    key = json.dumps(schema, sort_keys=True) + ('file' if on_file else '')
     if key in _hb:
         return _hb[key]
     sqlo.setup()
     from sqlobject import SQLObject, ForeignKey, IntCol, RelatedJoin, SQLRelatedJoin, MultipleJoin, SQLMultipleJoin, SingleJoin
     from sqlobject.inheritance import InheritableSQLObject
     reg = sqlo.uniq('c13hreg')
-    conn = sqlo.mem_conn()
+    conn = sqlo.file_conn(os.path.join(scratch_dir(), sqlo.uniq('db') + '.sqlite')) if on_file else sqlo.mem_conn()
     levels = HL[:schema['depth']]
     classes = {}
     parent = None
@@ -565,9 +578,28 @@ def hi_gen(rng):
     return schema, ops
 
 
-def hi_run(ctx, schema, ops):
+def hi_run(ctx, schema, ops, via_tx=False):
+    """via_tx: file-backed database; every object is created / fetched / destroyed through one `conn.transaction()` (another
+    DB-API connection than the default one) and the raw SELECTs of the oracle run inside it: the accessors of an object
+    fetched through the transaction must show the transaction's state"""
+    try:
+        return _hi_run(ctx, schema, ops, via_tx)
+    finally:
+        for tx in _open_tx:
+            try:
+                tx.rollback()
+            except Exception:
+                pass
+        del _open_tx[:]
+
+
+_open_tx = []
+
+
+def _hi_run(ctx, schema, ops, via_tx):
     import sqlobject
-    conn, classes = hi_build(schema)
+    conn0, classes = hi_build(schema, on_file=via_tx)
+    conn = conn0
     levels = HL[:schema['depth']]
     for cls in classes.values():
         conn.query('DELETE FROM %s' % cls.sqlmeta.table)
@@ -577,6 +609,12 @@ def hi_run(ctx, schema, ops):
     conn.cache.clear()
     done = []
     leaf_of = {}
+    ckw = {}
+    if via_tx:
+        conn = conn0.transaction()
+        _open_tx.append(conn)
+        ckw = {'connection': conn}
+    mode = 'inherit-tx' if via_tx else 'inherit'
 
     def live_h():
         return [r[0] for r in conn.queryAll('SELECT id FROM %s ORDER BY id' % classes['P'].sqlmeta.table)]
